@@ -49,6 +49,12 @@ def tm_accepts_word(T: TM, word: str, max_steps: int = 1000) -> Optional[bool]:
     if head == len(tape):
         tape.append(T.blank)
 
+    # the initial state may be the accepting or the rejecting state
+    if q == q_accept:
+        return True
+    if q == q_reject:
+        return False
+
     for _ in range(max_steps):
         q, head = tm_do_transition(T, q, tape, head)
         if q == q_accept:
@@ -71,6 +77,10 @@ def tm_simulate_word(T: TM, word: str, max_steps: int = 1000) -> List[Tuple[Stat
     if head == len(tape):
         tape.append(T.blank)
     result.append((q, tape[:], head))
+
+    # the initial state may be the accepting or the rejecting state
+    if q in [q_accept, q_reject]:
+        return result
 
     for _ in range(max_steps):
         q, head = tm_do_transition(T, q, tape, head)
